@@ -13,6 +13,7 @@ mod ops;
 mod util;
 
 mod drive_code;
+mod replay;
 
 use std::collections::HashMap;
 
@@ -67,6 +68,8 @@ fn main() {
     util::quiet_panics();
     let code = match args.cmd.as_str() {
         "code" => drive_code::main(&args),
+        "replay" => replay::main(&args),
+        "replay-script" => replay::main_script(&args),
         other => {
             eprintln!("unknown command {other}");
             2
